@@ -137,8 +137,12 @@ theorem var_dependencies_card_feature_independent (c : Cfg) (z : Bool) (fs : FSt
     (varDepsC c fs t).eraseDups.length = (depsOf fs.base t).eraseDups.length :=
   DepsCard.distinct_congr (varDepsC_exact c z fs t inv ht)
 
-/-- the maintained table stays duplicate-free entry by entry (`node` pushes, `fix_import`
-regenerates), so under `variablelist` the length of the entry itself is the cardinality -/
+/-- LEMMAS ONLY (third review, audit L1): each table step keeps entries duplicate-free (`node` pushes; regeneration
+from the EMPTY table) and a duplicate-free list's length is its cardinality.  These three facts are NOT tied to `FInv`:
+no theorem here says that a reachable store's `var_deps` entry is `Nodup` (`TabInv.deps` = `DepsOK` is size +
+membership only, and `fixImportC` regenerates from `fs.deps`, not from `#[]`), so "under `variablelist` the length of
+the entry is the cardinality" is NOT a theorem of this development; the main theorems `var_dependencies_card*` use
+`eraseDups.length` and do not need it. -/
 theorem deps_table_nodup :
     (∀ (tbl : Array (List Nat)), (∀ l ∈ tbl.toList, l.Nodup) → ∀ (v lo hi : Nat),
       ∀ l ∈ (tbl.push (depsEntry tbl v lo hi)).toList, l.Nodup) ∧
